@@ -24,9 +24,9 @@ import json, os, random
 import vlib
 from vlib import Check
 
-def wrap(ops, busy, idle=0, expired=0):
+def wrap(ops, busy, idle=0, expired=0, stall=0):
     pre = [{"op": "Wait", "ms": 14000 * expired}] if expired else []
-    return [{"op": "Config", "fill_busy": busy, "fill_idle": idle, "fill_expired": expired, "fabric": True}, {"op": "Open", "timeout": 900}] + pre + ops + \
+    return [{"op": "Config", "fill_busy": busy, "fill_idle": idle, "fill_expired": expired, "fabric": True, "stall_ms": stall}, {"op": "Open", "timeout": 900}] + pre + ops + \
            [{"op": "Wait", "ms": 70000}, {"op": "Probe", "i": 3, "tries": 3, "gap_ms": 2000}, {"op": "Wait", "ms": 70000}]
 
 def made(quick):
@@ -42,6 +42,25 @@ def made(quick):
                 g.append({"op": "Garbage", "i": 1 + r % 2, "kind": kind})
             g.append({"op": "Wait", "ms": 300})
         s.append(wrap(g, busy))
+        # first messages that ask for no acknowledgement; stand-alone acknowledgements arriving late, for exchanges the
+        # device has closed already
+        g = []
+        for r in range(4 if quick else 10):
+            for kind in ("pbkdf", "sigma1", "pake1", "status"):
+                g.append({"op": "Garbage", "i": 1 + r % 2, "kind": kind, "rel": r % 2 == 1})
+                g.append({"op": "Wait", "ms": 150 if r % 2 else 20})
+                g.append({"op": "Garbage", "i": 1 + r % 2, "kind": "late_ack"})
+            g.append({"op": "Wait", "ms": 400})
+        s.append(wrap(g, busy))
+        # the application side of the device is stalled for a few seconds: first messages of every kind, with and
+        # without the reliability flag, are only seen by the transport and time out waiting to be accepted
+        g = []
+        for r in range(3 if quick else 8):
+            for kind in ("pbkdf", "sigma1", "pake1", "status"):
+                g.append({"op": "Garbage", "i": 1 + r % 2, "kind": kind, "rel": r % 2 == 0})
+            g.append({"op": "Wait", "ms": 700})
+        s.append(wrap(g + [{"op": "Wait", "ms": 3000}], busy, stall=4000))
+        s.append(wrap([{"op": "Pase", "i": 1, "pass": "ok"}, {"op": "Garbage", "i": 2, "kind": "pbkdf", "rel": False}, {"op": "Garbage", "i": 2, "kind": "sigma1", "rel": False}, {"op": "Wait", "ms": 5000}, {"op": "Settle"}], busy, stall=2500))
         # handlers cancelled after each handshake message
         for steps in (1, 2):
             s.append(wrap([{"op": "Pase", "i": 1, "pass": "ok", "locked": True}] + [{"op": "Step", "i": 1}] * steps + [{"op": "Cancel"}, {"op": "Step", "i": 1}, {"op": "Pase", "i": 2, "pass": "ok"}, {"op": "Settle"}], busy))
